@@ -43,6 +43,9 @@ def insert_positions(steps, need_started, need_alive):
                 started.add(s["n"])
             elif s["op"] == "crash":
                 alive.discard(s["n"])
+            elif s["op"] == "reboot":
+                # nodes are placed one per host in scenarios that reboot: host h == node h
+                alive.discard(s.get("host", 0))
             elif s["op"] == "recover":
                 alive.add(s["n"])
     return ok
